@@ -755,6 +755,13 @@ func (k *Kernel) makeReport(key RuleKey, trigger uint32, via string) *KReport {
 		Vol:   [6]uint64{big("t"), big("u"), big("d"), big("tp"), big("up"), big("dp")},
 	}
 	rep.End = rep.Start.Add(time.Duration(h("dur")%100000) * time.Second)
+	switch h("durk") % 12 {
+	case 0:
+		// an empty measurement interval: the event fell in the instant the interval began
+		rep.End = rep.Start
+	case 1:
+		rep.End = rep.Start.Add(time.Duration(1 + h("dur")%999)) // below the second the wire format carries
+	}
 	k.reports = append(k.reports, rep)
 	return rep
 }
